@@ -55,9 +55,10 @@ def run_ngrams(cfg):
         if cfg["stop"]:
             flags = {w: e.bool(f"stop_{w}") for w in words[:V]}
             stop = StopSet(flags)
-        vec = cls(ngram_range=(mn, mx))
+        opts = dict(binary=True) if cfg.get("binary") else {}
+        vec = cls(ngram_range=(mn, mx), **opts)
         ours = vec._word_ngrams(list(tokens), stop)
-        ref = parent(ngram_range=(mn, mx))._word_ngrams(list(tokens), stop)
+        ref = parent(ngram_range=(mn, mx), **opts)._word_ngrams(list(tokens), stop)
         flat = all(isinstance(g, tuple) and len(g) >= 1 and all(isinstance(t, str) for t in g) for g in ours)
         e.prove(flat, "ngrams-are-flat-token-tuples")
         if flat:
@@ -153,7 +154,7 @@ def replay(cfg, inputs, label):
             pass
     if cfg["stop"]:
         kw["stop_words"] = stop
-    for extra in ({}, {"binary": True} if cfg["cls"] == "count" else {"sublinear_tf": True}, {"max_features": 3}, {"min_df": 2}):
+    for extra in ({}, {"binary": True}, {"binary": True} if cfg["cls"] == "count" else {"sublinear_tf": True}, {"max_features": 3}, {"min_df": 2}):
         d = _compare(cls, parent, corpus, **kw, **extra)
         if d:
             d.update(corpus=corpus, options={**kw, **extra})
@@ -226,6 +227,8 @@ def configs(tier):
                     for cls in ("count", "tfidf"):
                         V = 2 if (tier == "quick" or L > 5) else 3
                         out.append(dict(L=L, min_n=mn, max_n=mx, stop=stop, cls=cls, V=V))
+                        if not stop and L in (3, 5) and mn <= 2 <= mx:
+                            out.append(dict(L=L, min_n=mn, max_n=mx, stop=stop, cls=cls, V=V, binary=True))  # binary=True: presence, not counts
                         if stop and cls == "count" and L <= 3:
                             out.append(dict(L=L, min_n=mn, max_n=mx, stop=stop, cls=cls, V=2, case=True))
     return out
